@@ -119,7 +119,7 @@ func binarySession(run *ev.Run, unit int64, r *rand.Rand, dir, bin string, tlsd 
 			// die exactly at a storage syscall: the N-th pwrite64/fsync/fdatasync of some thread
 			args = []string{"strace", "-f", "-o", "/dev/null", "-e", "trace=pwrite64,fsync,fdatasync", "-e", fmt.Sprintf("inject=pwrite64,fsync,fdatasync:signal=SIGKILL:when=%d", straceN)}
 		}
-		args = append(args, bin, "--listen", api, "--metrics_listen", "", "--db_file", db, "--private_key", w.Keys.Sign[0].Skey(),
+		args = append(args, bin, "--listen", api, "--metrics_listen", "127.0.0.1:0", "--db_file", db, "--private_key", w.Keys.Sign[0].Skey(),
 			"--bastion_addr", bast.Addr(), "--bastion_key_path", keyPath, "--bastion_rate_limit", "1000000", "--poll_interval", "0")
 		cmd = exec.Command(args[0], args[1:]...)
 		cmd.SysProcAttr = &syscall.SysProcAttr{Setpgid: true}
